@@ -277,9 +277,25 @@ func monC12(rep Rep, v *View) (writes int) {
 		}
 		writes++
 		st := obj.Status
-		for name, val := range map[string]int32{"readyReplicas": st.ReadyReplicas, "currentReplicas": st.CurrentReplicas, "updatedReplicas": st.UpdatedReplicas} {
+		// the delete site that ran in this reconcile is part of the signature (distinct root causes)
+		site := "no-delete"
+		for _, pa := range v.PodActs() {
+			switch {
+			case pa.Create:
+			case pa.Class == "replace" && pa.Target != nil && pa.Target.DeletionTimestamp != nil:
+				site = "replace-of-terminating-failed-pod"
+			case pa.Class == "replace" && site == "no-delete":
+				site = "replace-of-failed-pod"
+			case pa.Class == "update" && site == "no-delete":
+				site = "update-delete"
+			case pa.Class == "scale" && site == "no-delete":
+				site = "scale-in-delete"
+			}
+		}
+		for _, name := range []string{"readyReplicas", "currentReplicas", "updatedReplicas"} {
+			val := map[string]int32{"readyReplicas": st.ReadyReplicas, "currentReplicas": st.CurrentReplicas, "updatedReplicas": st.UpdatedReplicas}[name]
 			if val < 0 {
-				rep.Violate("status/"+name+"-negative", "wrote status %s=%d (replicas=%d)%s", name, val, st.Replicas, ctx(v))
+				rep.Violate("status/"+name+"-negative@"+site, "wrote status %s=%d (replicas=%d)%s", name, val, st.Replicas, ctx(v))
 			}
 			if val > st.Replicas {
 				rep.Violate("status/"+name+"-exceeds-replicas", "wrote status %s=%d > replicas=%d%s", name, val, st.Replicas, ctx(v))
